@@ -209,6 +209,7 @@ pub struct CaseResult {
     pub ok: bool,
     pub problems: Vec<(String, String)>, // (property, what)
     pub max_depth: u32,
+    pub max_signals_x100: u64,
     pub evaluations: usize,
     pub started_total: usize,
     pub ms: u128,
@@ -223,6 +224,7 @@ pub fn case_json(r: &CaseResult) -> String {
         ("ok".into(), (r.ok as u8).to_string()),
         ("problems".into(), jarr(&r.problems.iter().map(|(p, w)| jarr(&[jstr(p), jstr(w)])).collect::<Vec<_>>())),
         ("max_depth".into(), r.max_depth.to_string()),
+        ("max_signals_x100".into(), r.max_signals_x100.to_string()),
         ("evaluations".into(), r.evaluations.to_string()),
         ("started_total".into(), r.started_total.to_string()),
         ("ms".into(), r.ms.to_string()),
@@ -238,6 +240,7 @@ struct EvalOut {
     finished_after_failure: bool,
     aborted: bool,
     max_depth: u32,
+    max_signals_x100: u64,
 }
 
 /// vector-based transcription of the reference oracles (oracle.rs) for large graphs
@@ -335,13 +338,24 @@ fn evaluate_big(g: &BigGraph, h: &History, world: &Rc<RefCell<BigWorld>>, fault:
     }
     pypipegraph2::verif::set_transition_log(false);
     pypipegraph2::verif::take_max_depth();
-    let mut out = EvalOut { started: vec![false; n], nstarted: 0, errors: vec![], history: None, upf_after_failure: None, finished_after_failure: false, aborted: false, max_depth: 0 };
+    let nedges: usize = g.ups.iter().map(|u| u.len()).sum();
+    let budget: u64 = 2000 + 400 * (n as u64 + nedges as u64);
+    pypipegraph2::verif::set_signal_budget(Some(budget));
+    pypipegraph2::verif::take_signal_count();
+    let mut max_signals: u64 = 0;
+    let mut out = EvalOut { started: vec![false; n], nstarted: 0, errors: vec![], history: None, upf_after_failure: None, finished_after_failure: false, aborted: false, max_depth: 0, max_signals_x100: 0 };
     macro_rules! call {
         ($name:expr, $e:expr) => {{
-            match guarded(|| $e) {
+            let res = guarded(|| $e);
+            max_signals = max_signals.max(pypipegraph2::verif::take_signal_count());
+            match res {
                 Ok(Ok(())) => true,
                 Ok(Err(e)) => {
                     out.errors.push(("C06".into(), format!("{} -> {}", $name, err_str(&e).chars().take(200).collect::<String>())));
+                    false
+                }
+                Err(p) if p.contains("verif: signal budget exceeded") => {
+                    out.errors.push(("C19".into(), format!("{}: the engine handled more than {} signals inside this one call ({} jobs, {} dependencies): run-away signal processing", $name, budget, n, nedges)));
                     false
                 }
                 Err(p) => {
@@ -353,6 +367,7 @@ fn evaluate_big(g: &BigGraph, h: &History, world: &Rc<RefCell<BigWorld>>, fault:
     }
     if !call!("startup", ev.event_startup()) {
         out.max_depth = pypipegraph2::verif::take_max_depth();
+        out.max_signals_x100 = max_signals * 100 / (n as u64 + nedges as u64 + 1);
         return out;
     }
     let mut running: VecDeque<usize> = VecDeque::new();
@@ -487,6 +502,7 @@ fn evaluate_big(g: &BigGraph, h: &History, world: &Rc<RefCell<BigWorld>>, fault:
         }
     }
     out.max_depth = pypipegraph2::verif::take_max_depth();
+    out.max_signals_x100 = max_signals * 100 / (n as u64 + nedges as u64 + 1);
     if out.errors.is_empty() && ev.is_finished() {
         match guarded(|| ev.new_history()) {
             Ok(Ok(h)) => out.history = Some(h),
@@ -545,6 +561,7 @@ pub fn run_case(shape: &str, size: usize, cascade: &str) -> CaseResult {
         r.evaluations += 1;
         r.started_total += o.nstarted;
         r.max_depth = r.max_depth.max(o.max_depth);
+        r.max_signals_x100 = r.max_signals_x100.max(o.max_signals_x100);
         for (p, e) in &o.errors {
             r.problems.push((p.clone(), format!("{}: {}", what, e)));
         }
@@ -786,6 +803,7 @@ pub fn run_sweep(thorough: bool, seed: u64, nthreads: usize, deadline: Instant, 
                 *e = (*e).max(depth);
                 acc.max("c19_max_jobs", jobs as u64);
                 acc.max("max_signal_depth", depth as u64);
+                acc.max("max_signals_per_call_x100_per_size", parse_field(line, "max_signals_x100").and_then(|x| x.parse().ok()).unwrap_or(0));
                 if ok {
                     acc.nontrivial("C19", fnv(&format!("{}{}{}", sh, sz, c)));
                     if *sz >= 1000 {
@@ -800,9 +818,9 @@ pub fn run_sweep(thorough: bool, seed: u64, nthreads: usize, deadline: Instant, 
                     if is_harness {
                         acc.inconclusive.push(format!("sweep case {} {} {}: harness expectation not met: {}", sh, sz, c, what));
                     } else {
-                        let site = if what.contains("Depth ConsiderJob") { "depth-guard".to_string() } else if what.contains("InternalError") { "internal-error".to_string() } else if what.contains("PANIC") { "panic".to_string() } else { "expectation".to_string() };
+                        let site = if what.contains("run-away signal processing") { "signal-budget".to_string() } else if what.contains("Depth ConsiderJob") { "depth-guard".to_string() } else if what.contains("InternalError") { "internal-error".to_string() } else if what.contains("PANIC") { "panic".to_string() } else { "expectation".to_string() };
                         acc.violation(Witness { prop: "C19".into(), rule: "large-graph-misbehaves".into(), sig: format!("large-graph-misbehaves|{}:{}", c, site), detail: format!("{} with {} jobs, cascade {}: {}", sh, sz, c, what), replay_args: args.clone(), trace: line.to_string() });
-                        if site != "expectation" {
+                        if site != "expectation" && site != "signal-budget" {
                             acc.violation(Witness { prop: "C06".into(), rule: "large-graph-error".into(), sig: format!("large-graph-error|{}:{}", c, site), detail: format!("{} with {} jobs, cascade {}: {}", sh, sz, c, what), replay_args: args, trace: line.to_string() });
                         }
                     }
